@@ -1,6 +1,7 @@
 package props
 
 import (
+	"bufio"
 	"bytes"
 	"errors"
 	"io"
@@ -29,6 +30,10 @@ type C18Script struct {
 	// first call left behind (partial packet, error) must not leak into later calls
 	Again  int    `json:"again,omitempty"`
 	Again2 string `json:"again_style,omitempty"`
+	// Wrap (readfrom mode only): hand ReadFrom a reader that also implements io.WriterTo:
+	// "bytes" = bytes.Reader over the data, "bufio" = bufio.Reader over the SimReader,
+	// "bufio_peeked" = the same after a Peek filled its buffer. "" = the SimReader itself.
+	Wrap string `json:"wrap,omitempty"`
 }
 
 type c18 struct{}
@@ -47,7 +52,7 @@ func (c18) Info() core.Info {
 			"after an injected reader error the sink log may be any prefix covering at least the packets fully delivered before the failing Read; it must never contain a misaligned, duplicated or reordered packet",
 			"a sink that returns a short count without error is outside the statement: only integrity and order of what is delivered are checked after it",
 		},
-		RequiredProbes: []string{"frag_unaligned", "one_byte", "data_with_eof", "partial_tail", "sink_err_first", "sink_err_mid", "reader_err_mid_packet", "via_io_copy", "write_not_multiple", "write_multi_packet", "closer", "adapter_reused", "adapter_reused_after_partial_tail"},
+		RequiredProbes: []string{"frag_unaligned", "one_byte", "data_with_eof", "partial_tail", "sink_err_first", "sink_err_mid", "reader_err_mid_packet", "via_io_copy", "write_not_multiple", "write_multi_packet", "closer", "adapter_reused", "adapter_reused_after_partial_tail", "reader_is_writerto"},
 	}
 }
 
@@ -138,6 +143,9 @@ func (c18) Gen(r *core.Rand, tier string) interface{} {
 	}
 	if r.Chance(1, 4) {
 		s.Tail = r.Range(1, 187)
+	}
+	if s.Mode == "readfrom" && r.Chance(1, 4) {
+		s.Wrap = r.PickS("bytes", "bufio", "bufio_peeked")
 	}
 	style := r.PickS("full", "frag", "frag", "one", "mixed", "mixed")
 	n := (s.Packets*188+s.Tail)/90 + 4
@@ -338,7 +346,24 @@ func (c18) Exec(script interface{}, c *core.Ctx) {
 			}
 		} else {
 			rf := w.(io.ReaderFrom)
-			if !c.Call("packetWriter.ReadFrom", func() { n, err = rf.ReadFrom(sr) }) {
+			var src io.Reader = sr
+			wrap := s.Wrap
+			if parties.HasErrOps(s.Reads) {
+				wrap = "" // a buffering layer (and the harness's own Peek) would swallow the injected error
+			}
+			switch wrap {
+			case "bytes":
+				src = bytes.NewReader(data)
+				c.Probe("reader_is_writerto")
+			case "bufio", "bufio_peeked":
+				br := bufio.NewReaderSize(sr, 4096)
+				if wrap == "bufio_peeked" {
+					br.Peek(1)
+				}
+				src = br
+				c.Probe("reader_is_writerto")
+			}
+			if !c.Call("packetWriter.ReadFrom", func() { n, err = rf.ReadFrom(src) }) {
 				return
 			}
 		}
@@ -609,6 +634,11 @@ func (c18) Shrink(script interface{}) []interface{} {
 	if s.Default != "" {
 		n := cp()
 		n.Default = ""
+		out = append(out, n)
+	}
+	if s.Wrap != "" {
+		n := cp()
+		n.Wrap = ""
 		out = append(out, n)
 	}
 	if s.Again > 0 {
